@@ -954,7 +954,7 @@ void tickit_term_input_wait_msec(TickitTerm *tt, long msec)
 void tickit_term_input_wait_tv(TickitTerm *tt, const struct timeval *timeout)
 {
   if(timeout)
-    tickit_term_input_wait_msec(tt, (long)(timeout->tv_sec) + (timeout->tv_usec / 1000));
+    tickit_term_input_wait_msec(tt, (long)(timeout->tv_sec) * 1000 + (timeout->tv_usec / 1000));
   else
     tickit_term_input_wait_msec(tt, -1);
 }
